@@ -120,3 +120,75 @@ def patched(obj, name, value):
         yield
     finally:
         setattr(obj, name, old)
+
+
+# ----------------------------------------------------------------------------------------------------------------------
+# one-sided infinite FORCED bounds (not in bcc.gen.BOUNDS; kept here so that no other driver's random stream shifts)
+# ----------------------------------------------------------------------------------------------------------------------
+FORCED_INF = [(-INF, -5.0), (-INF, -1.0), (2.0, INF), (5.0, INF)]
+FORCED_INF_BOUNDS = FORCED_INF * 3 + [(-1000.0, 1000.0), (0.0, 1000.0), (-1000.0, 0.0), (0.0, 10.0), (-10.0, 10.0), (1.0, 10.0),
+                                      (-10.0, -1.0), (2.0, 2.0), (0.0, 0.0), (0.0, 3.0), (-3.0, 0.0), (0.0, INF), (-INF, INF),
+                                      (-INF, 0.0), (-1000.0, -5.0), (5.0, 1000.0)]
+HOWS = ("constructor", "bounds", "sides")
+
+
+def forced_inf_model(rng):
+    """a model whose reactions mix one-sided infinite forced bounds with the usual ones: either a random network or a chain
+    with forced uptake / forced secretion and a capacity downstream that lies below or above the forced amount"""
+    from bcc import gen
+    x = rng.random()
+    if x < 0.6:
+        return gen.random_model(rng, n_mets=rng.randint(1, 4), n_rxns=rng.randint(1, 5), with_genes=False, bounds=FORCED_INF_BOUNDS)
+    n = rng.randint(1, 3)
+    rev = rng.random() < 0.4
+    bounds = {}
+    forced = rng.choice([5.0, 1.0])
+    if rev:                      # EX_m0: -> m0 with positive flux = uptake
+        bounds["EX_m0"] = rng.choice([(forced, INF), (2.0, INF), (forced, 1000.0)])
+    else:                        # EX_m0: m0 -> with negative flux = uptake
+        bounds["EX_m0"] = rng.choice([(-INF, -forced), (-INF, -forced), (-1000.0, -forced)])
+    for i in range(n):
+        bounds[f"R{i}"] = rng.choice([(0.0, 3.0), (0.0, 10.0), (0.0, INF), (0.0, 1000.0), (2.0, INF), (-INF, INF), (0.0, 0.5)])
+    bounds["EX_out"] = rng.choice([(0.0, INF), (0.0, 1000.0), (2.0, INF), (5.0, INF), (0.0, 3.0), (0.0, 1000.0)])
+    if n >= 2 and rng.random() < 0.3:
+        bounds["CYC"] = rng.choice([(-INF, -1.0), (2.0, INF), (-1000.0, 1000.0), (0.0, 10.0)])
+    m = gen.linear_chain(n, cyc="CYC" in bounds, reverse_exchange=rev, bounds=bounds,
+                         objective=rng.choice(["EX_out", "EX_m0", "R0"]), direction=rng.choice(["max", "min"]))
+    return m
+
+
+def build_via(desc, how):
+    """rebuild a described model, setting the reaction bounds through one particular API path:
+    'constructor' Reaction(id, lower_bound=, upper_bound=) before the reaction joins the model;
+    'bounds'      reaction.bounds = (lb, ub) on the reaction inside the model;
+    'sides'       reaction.lower_bound = lb; reaction.upper_bound = ub on the reaction inside the model"""
+    import cobra
+    from cobra.util.solver import set_objective
+    m = cobra.Model(desc["id"])
+    mets = {mid: cobra.Metabolite(mid, compartment=c) for mid, c in desc["metabolites"]}
+    m.add_metabolites(list(mets.values()))
+    rxns = []
+    for rid, lb, ub, st, rule in desc["reactions"]:
+        lb, ub = float(lb), float(ub)
+        r = cobra.Reaction(rid, lower_bound=lb, upper_bound=ub) if how == "constructor" else cobra.Reaction(rid)
+        r.add_metabolites({mets[k]: v for k, v in st.items()})
+        if rule:
+            r.gene_reaction_rule = rule
+        rxns.append(r)
+    m.add_reactions(rxns)
+    if how != "constructor":
+        for rid, lb, ub, st, rule in desc["reactions"]:
+            lb, ub = float(lb), float(ub)
+            r = m.reactions.get_by_id(rid)
+            if how == "bounds":
+                r.bounds = (lb, ub)
+            elif lb > r.upper_bound:
+                r.upper_bound = ub
+                r.lower_bound = lb
+            else:
+                r.lower_bound = lb
+                r.upper_bound = ub
+    if desc["objective"]:
+        set_objective(m, {m.reactions.get_by_id(k): v for k, v in desc["objective"].items()})
+    m.objective_direction = desc["direction"]
+    return m
